@@ -198,6 +198,9 @@ func (v *vgen) value(t *T, depth int) *W {
 
 func (v *vgen) contLen(elem *T, depth int) int {
 	n := contLens[v.r.Intn(len(contLens))]
+	if v.rem > 40000 && elem.Scalar() && elem.K != Bool && elem.K != I8 && v.r.Chance(1, 3) {
+		n = []int{3000, 6000, 12000}[v.r.Intn(3)] // long scalar containers: decode time must stay proportional
+	}
 	per := 8
 	if involvesStruct(elem) || elem.K == List || elem.K == Map || elem.K == Set {
 		per = 40
